@@ -160,7 +160,7 @@ theorem unit_triangleFaces_addressed (nu nv : Nat) (u : Bool) (h : nv ≤ nu) :
     unit_triangleFaces nu nv u = (triAddr nv).map triFace := by
   have key : unit_triangleFaces nu nv u = (List.range (nv - 1)).flatMap (fun j => (List.range (j + 1)).flatMap (fun i =>
       (if i < j then [triFace (j, i, true)] else []) ++ [triFace (j, i, false)])) := by
-    unfold unit_triangleFaces
+    rw [unit_triangleFaces_norm]; unfold unit_triangleFacesCanon
     simp only []
     rcases Nat.eq_zero_or_pos nv with rfl | hpos
     · rfl
